@@ -59,7 +59,7 @@ def gen_cases(rng, tier):
             v = [rng.randrange(256) for _ in range(vl)]
             yield case("nv_write", n, v), ["write"]
             yield case("nv_run", enc(n, v)), ["run", "roundtrip"]
-    for (a, b) in [(MAXV + 1, 0), (0, MAXV + 1), (2 ** 32, 1), (5, 2 ** 32 + 7)] + ([] if quick else [(MAXV, 0), (3, MAXV)]):
+    for (a, b) in [(MAXV + 1, 0), (0, MAXV + 1), (2 ** 32, 1), (5, 2 ** 32 + 7), (MAXV, 0), (0, MAXV), (MAXV - 1, 1)] + ([] if quick else [(3, MAXV), (MAXV, MAXV)]):
         yield case("nv_write_big", [a], [b]), ["write", "big"]
     # exhaustive short strings over the boundary alphabet
     for L in range(0, 6 if quick else 7):
@@ -111,7 +111,7 @@ def nontrivial(line, tags):
 
 
 def min_classes(tier):
-    return {"exhaustive-short": 19000, "prefix": 500, "mutated": 150, "big": 4, "huge-lengths": 100}
+    return {"exhaustive-short": 19000, "prefix": 500, "mutated": 150, "big": 7, "huge-lengths": 100}
 
 
 def oracle(line, impl_line):
